@@ -151,8 +151,17 @@ def _expand(task):
         out = [(h, _expand_one(scn, h)) for h in hists]
         bad = []
         for rep, dup in pairs:
-            if _sig(_expand_one(scn, rep)) != _sig(_expand_one(scn, dup)):
-                bad.append((rep, dup))
+            a = _sig(_expand_one(scn, rep))
+            if a != _sig(_expand_one(scn, dup)):
+                # is the representative itself stable?  If expanding the *same* history twice gives different
+                # successor keys, the implementation state contains values that differ from run to run (elapsed
+                # times, object identities); that is not an abstraction error -- de-duplication is merely
+                # ineffective for such states -- and the verdicts (behavioural monitors) do not depend on it
+                # (several samples: run-dependent values of low resolution, e.g. elapsed times, collide now and then)
+                if any(a != _sig(_expand_one(scn, rep)) for _ in range(3)):
+                    bad.append(("unstable", rep))
+                else:
+                    bad.append((rep, dup))
         return ("ok", out, len(pairs), bad)
     except HarnessError as e:
         return ("error", str(e), 0, [])
@@ -209,6 +218,10 @@ def explore(si, seed=0, shadow_every=0, progress=None, want_samples=4):
                 break
             res.shadow_checked += npairs
             res.replayed += 2 * npairs
+            unstable = [b for b in bad if b[0] == "unstable"]
+            bad = [b for b in bad if b[0] != "unstable"]
+            if unstable:
+                res.tags["NONDETERMINISTIC-STATE"] = res.tags.get("NONDETERMINISTIC-STATE", 0) + len(unstable)
             if bad:
                 raise HarnessError("ABSTRACTION-UNSOUND: scenario %s: histories %r and %r have equal keys "
                                    "but different successors" % (scn.name, bad[0][0], bad[0][1]))
